@@ -22,6 +22,12 @@ class StartRequests(Observer):
         self.single_targets = {}    # (S nick, inc, app, plan start) -> set of targets
         self.rules_cache = {}
         self.recent_local = {}
+        self.stops = {}
+        self.history = {}
+        self.running_seen = {}
+        self.lost_since = {}
+        self.inst_states = {}
+        self.prev_ops = {}
 
     def _probe(self, name):
         self.probes[name] = self.probes.get(name, 0) + 1
@@ -31,7 +37,28 @@ class StartRequests(Observer):
             self.violations.append(Violation(prop, clause, detail, self.sim.now_us, signature or clause))
 
     # --- feeds ----------------------------------------------------------------------------------
+    def _hist(self, nick, inc, ns, state, expected=True):
+        h = self.history.setdefault((nick, inc, ns), [])
+        h.append((self.sim.now_us, state, expected))
+        if len(h) > 40:
+            del h[:10]
+
+    def was_running_at(self, s, ns, t_us):
+        last = None
+        for t, state, expected in self.history.get((s.nick, s.incarnation, ns), ()):
+            if t > t_us:
+                break
+            last = (state, expected)
+        return last is not None and (last[0] == 20 or (last[0] == 100 and last[1]))
+
     def on_wire(self, sim, rec):
+        if rec['method'] == 'supervisor.sendRemoteCommEvent' and rec['outcome'] == 'ok' and rec.get('header') == 3 \
+                and rec.get('comm_type') == 'SupvisorsNotification' and isinstance(rec.get('body'), list):
+            d = sim.instances.get(rec['dst'])
+            if d is not None:
+                for info in rec['body']:
+                    if info.get('state') == 20:
+                        self._hist(d.nick, d.incarnation, '%s:%s' % (info['group'], info['name']), 20)
         # process events handled by a requester (used to know when a pending request is no longer pending)
         if rec['method'] == 'supervisor.sendRemoteCommEvent' and rec['outcome'] == 'ok' and rec.get('header') == 1 \
                 and rec.get('comm_type') == 'SupvisorsPublication' and isinstance(rec.get('body'), dict):
@@ -39,12 +66,18 @@ class StartRequests(Observer):
             if d is not None:
                 b = rec['body']
                 self.events_seen[(d.nick, d.incarnation, '%s:%s' % (b['group'], b['name']))] = sim.now_us
+                self._hist(d.nick, d.incarnation, '%s:%s' % (b['group'], b['name']), b.get('state'), b.get('expected'))
+                if b.get('state') == 20 or (b.get('state') == 100 and b.get('expected')):
+                    self.running_seen[(d.nick, d.incarnation, '%s:%s' % (b['group'], b['name']))] = sim.now_us
 
     def on_publication(self, sim, inst, ptype, body):
         from supvisors.ttypes import PublicationHeaders
         if ptype == PublicationHeaders.PROCESS:
             ns = '%s:%s' % (body['group'], body['name'])
             self.events_seen[(inst.nick, inst.incarnation, ns)] = sim.now_us
+            self._hist(inst.nick, inst.incarnation, ns, body.get('state'), body.get('expected'))
+            if body.get('state') == 20 or (body.get('state') == 100 and body.get('expected')):
+                self.running_seen[(inst.nick, inst.incarnation, ns)] = sim.now_us
             if body.get('forced') and 'No resource available' in str(body.get('spawnerr')):
                 self._check_no_resource(sim, inst, ns)
             if body.get('state') == 200:   # FATAL (forced or local): starting failure bookkeeping
@@ -59,9 +92,27 @@ class StartRequests(Observer):
             if args and args[0] in ('LOCAL', 3) and name.startswith(('start_', 'restart_')):
                 self.recent_local[item['inst']] = self.sim.now_us
             if name in ('start_application', 'restart_application') and len(args) >= 2:
-                self.ops[(item['inst'], args[1])] = (self.sim.now_us, name, args)
+                key = (item['inst'], args[1])
+                self.prev_ops[key] = self.ops.get(key)
+                self.ops[key] = (self.sim.now_us, name, args)
             elif name == 'restart_sequence':
                 self.distribution_entry[(item['inst'], self.sim.instances[item['inst']].incarnation)] = self.sim.now_us
+
+    def on_plan_item(self, item, fired):
+        # an operation that was rejected has no effect: forget it
+        if item['kind'] == 'rpc' and self.sim.oplog:
+            rec = self.sim.oplog[-1]
+            if rec.get('plan_item') is item or rec['method'] == item['method']:
+                if 'fault' in rec or 'oserror' in rec or 'http500' in rec:
+                    args = item.get('args', [])
+                    if len(args) >= 2:
+                        key = (item['inst'], args[1])
+                        if key in self.ops and self.ops[key][0] == rec['t_us']:
+                            prev = self.prev_ops.get(key)
+                            if prev is None:
+                                del self.ops[key]
+                            else:
+                                self.ops[key] = prev
 
     # --- view helpers ---------------------------------------------------------------------------
     def _rules(self, sim, s, ns):
@@ -124,6 +175,8 @@ class StartRequests(Observer):
     # --- the request ----------------------------------------------------------------------------
     def on_request(self, sim, s, identifier, rtype, body):
         from supvisors.ttypes import RequestHeaders
+        if rtype == RequestHeaders.STOP_PROCESS:
+            self.stops[(s.nick, s.incarnation, body[0].split(':')[0])] = sim.now_us
         if rtype != RequestHeaders.START_PROCESS:
             return
         ns, extra = body
@@ -195,7 +248,7 @@ class StartRequests(Observer):
         self._check_placement(sim, s, ns, app, identifier, states, procs, loads, prules, arules, distribution,
                               rule_ids, detail)
         self.requests.append({'s': s.nick, 'inc': s.incarnation, 'ns': ns, 'target': identifier, 't_us': now,
-                              'app': app})
+                              'app': app, 'mono': s.node['mono'] + now / US})
 
     # --- C03 ------------------------------------------------------------------------------------
     def _truly_running(self, ns):
@@ -206,14 +259,66 @@ class StartRequests(Observer):
                     return True
         return False
 
-    def _done(self, q, procs, wait_exit=False):
+    def _done(self, q, procs, s=None):
         shown = procs.get(q)
         if shown is None:
             return True
         real = shown[2]
         if real == 'RUNNING' or shown[0] in ('FATAL', 'EXITED') or real in ('FATAL', 'EXITED'):
             return True
-        return self._truly_running(q)
+        if self._truly_running(q):
+            return True
+        if s is not None:
+            # it was already running when the plan of S began (then it is not part of the plan), whatever happened since
+            t0 = self._plan_start(s, q.split(':')[0])
+            if t0 is not None and self.was_running_at(s, q, t0):
+                return True
+        # given up because the host of its start job was lost: S requested it and the target left RUNNING since
+        if s is not None:
+            for r in reversed(self.requests):
+                if r['s'] == s.nick and r['inc'] == s.incarnation and r['ns'] == q:
+                    lost = self.lost_since.get((s.nick, s.incarnation, r['target']), -1)
+                    if lost >= r['t_us']:
+                        return True
+                    # it did finish starting after S requested it (somebody may have stopped it since)
+                    if self.running_seen.get((s.nick, s.incarnation, q), -1) >= r['t_us']:
+                        return True
+                    # STOPPING is never the state a request starts from: the command has just failed on that event
+                    # (a local event triggers the next request before it is published, hence not yet in the history)
+                    if real == 'STOPPING':
+                        return True
+                    # an event was received for q after the request and q is stopped-like: the command failed
+                    # (covers local events, which trigger the next request before they are published)
+                    if real in STOPPED_STATES:
+                        app_o = s.supvisors.context.applications.get(q.split(':')[0])
+                        proc_o = app_o.processes.get(q.split(':')[1]) if app_o else None
+                        if proc_o is not None and proc_o.last_event_mtime > r['mono']:
+                            return True
+                    # the start command failed: any of these events ends it (ProcessStartCommand.on_event FAILED)
+                    for t, state, _e in self.history.get((s.nick, s.incarnation, q), ()):
+                        if t >= r['t_us'] and state in (0, 40, 100, 200, 1000):
+                            return True
+                    break
+        return False
+
+    def _plan_start(self, s, app):
+        """ Start of the current plan of S for this application: the operation or DISTRIBUTION entry behind it. """
+        t_dist = self.distribution_entry.get((s.nick, s.incarnation), -1)
+        t_op = self.ops.get((s.nick, app), (-1,))[0]
+        t0 = max(t_dist, t_op)
+        return t0 if t0 >= 0 else None
+
+    def after_event(self, sim, inst, kind):
+        if not inst.alive or inst.supvisors is None:
+            return
+        key0 = (inst.nick, inst.incarnation)
+        prev = self.inst_states.setdefault(key0, {})
+        for ident, st in inst.supvisors.context.instances.items():
+            name = st.state.name
+            if prev.get(ident) != name:
+                if prev.get(ident) == 'RUNNING':
+                    self.lost_since[(inst.nick, inst.incarnation, ident)] = sim.now_us
+                prev[ident] = name
 
     def _check_sequence(self, sim, s, ns, app, procs, seqs, required, prules, arules, detail):
         if not self.app_plans_only:
@@ -223,7 +328,7 @@ class StartRequests(Observer):
         if seq == 0:
             self.v('C03', 'unsequenced-process-started', dict(detail, start_sequence=0), 'unsequenced-process-started')
         lower = [q for q in procs if q.split(':')[0] == app and q != ns and 0 < seqs.get(q, 0) < seq]
-        not_done = [q for q in lower if not self._done(q, procs)]
+        not_done = [q for q in lower if not self._done(q, procs, s)]
         if not_done:
             self.v('C03', 'lower-sequence-not-done', dict(detail, start_sequence=seq,
                                                           pending={q: (seqs[q], procs[q][2]) for q in not_done}),
@@ -232,7 +337,9 @@ class StartRequests(Observer):
         t_dist = self.distribution_entry.get((s.nick, s.incarnation))
         t_op = self.ops.get((s.nick, app), (-1,))[0]
         ctx = s.supvisors.context
-        if t_dist is not None and t_op < t_dist and arules.get('managed'):
+        # a restart of the application (RESTART_APPLICATION repair, stop then start) is not a distribution plan
+        restarted = sim.now_us - self.stops.get((s.nick, s.incarnation, app), -10**12) < 90 * US
+        if t_dist is not None and t_op < t_dist and arules.get('managed') and not restarted:
             a_seq = arules.get('start_sequence', 0)
             if a_seq == 0:
                 self.v('C03', 'unsequenced-application-started', dict(detail, app_start_sequence=0),
@@ -250,7 +357,7 @@ class StartRequests(Observer):
                 if not mine:
                     continue
                 nd = [q for q in procs if q.split(':')[0] == other.application_name and seqs.get(q, 0) > 0
-                      and not self._done(q, procs)
+                      and not self._done(q, procs, s)
                       and any(r['ns'] == q for r in mine)]
                 if nd:
                     self.v('C03', 'lower-application-not-done', dict(detail, app_start_sequence=a_seq,
